@@ -223,6 +223,38 @@ def run(tier, v):
             n_results += len(par)
             rows[o["id"]] = (m, par)
             f.write(json.dumps({"id": o["id"], "seq": seq_res[m["seq"]], "par": par}) + "\n")
+    # ---- the parallel FRONT END (with_config + init_pool + analyze_pcap): the path a user of parallel mode takes; analyze_pcap
+    # returns when the capture has been dispatched, the results are collected until every worker has finished
+    fe_lines = []
+    for l in seq_lines:
+        crate = l["mode"]
+        for (nw, bs) in (((2, 8), (1, 32)) if tier != "thorough" else ((1, 1), (1, 32), (2, 8), (4, 4), (7, 16))):
+            i = len(meta)
+            fe_lines.append({"id": i, "crate": crate + "_par", "frames": l["req"]["frames"], "matcher": crate == "tcp", "cfg": {}, "cap": 1000,
+                             "parallel": {"workers": nw, "queue": 4096, "batch": bs, "timeout_ms": 5}})
+            meta.append({"seq": l["id"], "crate": crate, "nw": nw, "batch": bs, "front_end": True})
+    freq = os.path.join(wd, "fe.req")
+    vlib.write_ndjson(freq, fe_lines)
+    fout = os.path.join(wd, "fe.out")
+    vlib.run_hv_split("ana", freq, fout, parts=6, timeout=3000, env={"HV_PCAP_DIR": os.path.join(wd, "pcap")})
+    with open(trace, "a") as f:
+        for o in vlib.read_ndjson(fout):
+            m = meta[o["id"]]
+            if "panic" in o:
+                v.violation({"run": m, "observed": "panic: " + o["panic"]})
+                continue
+            if o.get("hung"):
+                raise vlib.ToolError("front-end run %d: the result channel was still open after 10 s of silence" % o["id"])
+            par = []
+            for r_ in o["results"]:
+                c, d = conn_of_result(m["crate"], r_)
+                if c is None:
+                    continue
+                par.append({"conn": c if isinstance(c, str) else str(sorted(c)), "digest": d})
+            n_runs += 1
+            n_results += len(par)
+            rows[o["id"]] = (m, par)
+            f.write(json.dumps({"id": o["id"], "seq": seq_res[m["seq"]], "par": par}) + "\n")
     r2 = vlib.tlc("TV_C10", pid=PID, workers=8, env={"TRACE": trace}, timeout=1800, heap="10g")
 
     if tier == "thorough":
@@ -234,7 +266,7 @@ def run(tier, v):
         v.binding.append(vlib.binding_demo("TV_C10", trace, mut, PID, workers=4, timeout=900, heap="4g"))
     for b in r2.lines.get("BAD", []):
         m, par = rows[b["id"]]
-        v.violation({"crate": m["crate"], "workers": m["nw"], "batch": m["batch"], "connections_that_differ": b["conns"], "sequential_results": b["nseq"], "pool_results": b["npar"],
+        v.violation({"crate": m["crate"], "path": "parallel front end (with_config + init_pool + analyze_pcap)" if m.get("front_end") else "WorkerPool", "workers": m["nw"], "batch": m["batch"], "connections_that_differ": b["conns"], "sequential_results": b["nseq"], "pool_results": b["npar"],
                      "sequential": [x for x in seq_res[m["seq"]] if x["conn"] in b["conns"]][:10], "pool": [x for x in par if x["conn"] in b["conns"]][:10]})
     return v.finish("model_checking", {
         "states": statesA + r2.distinct, "transitions": transA + r2.generated, "traces_validated_against_impl": n_runs,
@@ -242,7 +274,7 @@ def run(tier, v):
         "rule": "%d interleaved traces x 3 crates x %d (workers, batch) configurations, each pool run perturbed with its own seed and compared with the sequential analyzer; non-trivial = pool runs" % (n_traces, len(configs)),
         "samples": [{"config": {k: rows[i][0][k] for k in ("crate", "nw", "batch")}, "results": rows[i][1][:3]} for i in list(rows)[:2]],
         "exhaustive": False, "pool_model_states": statesA,
-    }, ["queues are larger than the trace, one dispatcher (trace order), no shutdown before all results are in", "clock frozen through hook H1; schedule widened through hook H2",
+    }, ["queues are larger than the trace, one dispatcher (trace order); WorkerPool runs: no shutdown before all results are in; front-end runs: whatever analyze_pcap does", "clock frozen through hook H1; schedule widened through hook H2",
         "TCP results are attributed to the sending host, HTTP/TLS results to the connection's endpoint pair"])
 
 
